@@ -510,3 +510,147 @@ UNDECIDED += [
     ('u13-numbering-stripped-source', ['C13'], [(A, _RD_LOOP, "    for i, raw_line in enumerate(source.strip().splitlines(), start=1):\n")]),
     ('u13-split-literal-whitespace', ['C13'], [(A, _LEX_SPLIT, "    tokens = re.split(r'[ \\t,]+', contents)")]),
 ]
+
+
+# ---- front-end wiring / pack rule: idioms of behaviour-preserving refactors (token flow through slices, helpers, parser
+# factories, dispatch tables; pack rule over paths) -----------------------------------------------------------------------------
+_U_ARM_OLD = "        name, rd, *imm = tokens\n        name = name.lower()\n        imm = parse_immediate(imm, line)\n        return UTypeInstruction(line, name, rd, imm)"
+_B_ARM_OLD = ("        name, rs1, rs2, reference = tokens\n        name = name.lower()\n        if is_int(reference):\n            imm = [reference]\n        else:\n"
+              "            # behavior is \"offset\" for branches to labels\n            imm = ['%offset', reference]\n        imm = parse_immediate(imm, line)\n"
+              "        return BTypeInstruction(line, name, rs1, rs2, imm)")
+_R_ARM_OLD = ("        if len(tokens) != 4:\n            raise AssemblerError('r-type instructions require exactly 3 args', line)\n        name, rd, rs1, rs2 = tokens\n"
+              "        name = name.lower()\n        return RTypeInstruction(line, name, rd, rs1, rs2)")
+_CR_ARM_OLD = ("    # cr-type instructions\n    elif head in CR_TYPE_INSTRUCTIONS:\n        if len(tokens) != 3:\n            raise AssemblerError('cr-type instructions require exactly 2 args', line)\n"
+               "        name, rd_rs1, rs2 = tokens\n        name = name.lower()\n        return CRTypeInstruction(line, name, rd_rs1, rs2)\n")
+_CA_ARM_OLD = ("    # ca-type instructions\n    elif head in CA_TYPE_INSTRUCTIONS:\n        if len(tokens) != 3:\n            raise AssemblerError('ca-type instructions require exactly 2 args', line)\n"
+               "        name, rd_rs1, rs2 = tokens\n        name = name.lower()\n        return CATypeInstruction(line, name, rd_rs1, rs2)\n")
+_PARSE_ITEM_DEF = "def parse_item(line_tokens):\n"
+_REFERENCE_HELPER = ("def parse_reference(reference, line):\n    if is_int(reference):\n        imm = [reference]\n    else:\n        imm = ['%offset', reference]\n"
+                     "    return parse_immediate(imm, line)\n\n\n")
+_FACTORY = ("def plain_args_parser(cls, count, message):\n    def parse(line, name, tokens):\n        if len(tokens) != 1 + count:\n            raise AssemblerError(message, line)\n"
+            "        return cls(line, name, *tokens[1:])\n    return parse\n\n\n")
+_LABEL_ARM = "    if len(tokens) == 1 and tokens[0].endswith(':'):"
+_TABLE_LOOP = ("    for names, parser in TWO_REG_PARSERS:\n        if head in names:\n            return parser(line, head, tokens)\n\n")
+_TABLE_DEF = ("TWO_REG_PARSERS = [\n    (CR_TYPE_INSTRUCTIONS, plain_args_parser(CRTypeInstruction, 2, 'cr-type instructions require exactly 2 args')),\n"
+              "    (CA_TYPE_INSTRUCTIONS, plain_args_parser(CATypeInstruction, 2, 'ca-type instructions require exactly 2 args')),\n]\n\n\n")
+_AQRL_OLD = "                *args, aq, rl = item.args()\n                code = encode_func(*args, aq=aq, rl=rl)"
+_ISA_OLD = "if isinstance(item, ATypeInstruction) or isinstance(item, ALTypeInstruction):"
+_FMT_OLD = "        if isinstance(item, CompressedInstruction):\n            fmt = '<H'\n        else:\n            fmt = '<I'\n"
+_RESOLVE_OLD = ("def resolve_instructions(items):\n    new_items = []\n\n    for item in items:\n        if not isinstance(item, Instruction):\n            new_items.append(item)\n            continue\n\n"
+                "        encode_func = INSTRUCTIONS[item.name]\n        try:\n            # atomic insts expect aq and rl as kwargs\n            " + _ISA_OLD + "\n" + _AQRL_OLD + "\n"
+                "            else:\n                args = item.args()\n                code = encode_func(*args)\n        except ValueError as e:\n            raise AssemblerError(str(e), item.line)\n\n"
+                "        # pack into 2 bytes if item is a CompressedInstruction, else 4\n" + _FMT_OLD + "\n        code = struct.pack(fmt, code)\n        blob = Blob(item.line, code)\n        new_items.append(blob)\n\n"
+                "        log_conversion('resolve_instructions', item, blob)\n\n    return new_items\n")
+_RESOLVE_CLOSURE = ("def convert_each(pass_name, items, item_type, convert):\n    new_items = []\n    for item in items:\n        if isinstance(item, item_type):\n            new_item = convert(item)\n"
+                    "            new_items.append(new_item)\n            log_conversion(pass_name, item, new_item)\n        else:\n            new_items.append(item)\n    return new_items\n\n\n"
+                    "def resolve_instructions(items):\n    def encode(item):\n        encode_func = INSTRUCTIONS[item.name]\n        try:\n"
+                    "            if isinstance(item, (ATypeInstruction, ALTypeInstruction)):\n                *args, aq, rl = item.args()\n                code = encode_func(*args, aq=aq, rl=rl)\n"
+                    "            else:\n                code = encode_func(*item.args())\n        except ValueError as e:\n            raise AssemblerError(str(e), item.line)\n"
+                    "        fmt = '<H' if isinstance(item, CompressedInstruction) else '<I'\n        return Blob(item.line, struct.pack(fmt, code))\n\n"
+                    "    return convert_each('resolve_instructions', items, Instruction, encode)\n")
+_WIRING_PROPS = None
+
+PRESERVING += [
+    ('p-parse-slice', _WIRING_PROPS, [(A, _U_ARM_OLD, "        name = tokens[0].lower()\n        return UTypeInstruction(line, name, tokens[1], parse_immediate(tokens[2:], line))")]),
+    ('p-parse-helper', _WIRING_PROPS, [(A, "# helper for parsing immediates since they occur in multiple places\n", _REFERENCE_HELPER + "# helper for parsing immediates since they occur in multiple places\n"),
+                                       (A, _B_ARM_OLD, "        name, rs1, rs2, reference = tokens\n        return BTypeInstruction(line, head, rs1, rs2, parse_reference(reference, line))")]),
+    ('p-parse-factory', _WIRING_PROPS, [(A, _PARSE_ITEM_DEF, _FACTORY + "parse_r_type = plain_args_parser(RTypeInstruction, 3, 'r-type instructions require exactly 3 args')\n\n\n" + _PARSE_ITEM_DEF),
+                                        (A, _R_ARM_OLD, "        return parse_r_type(line, head, tokens)")]),
+    ('p-parse-table-loop', _WIRING_PROPS, [(A, _PARSE_ITEM_DEF, _FACTORY + _TABLE_DEF + _PARSE_ITEM_DEF),
+                                           (A, _CR_ARM_OLD, ""), (A, _CA_ARM_OLD, ""),
+                                           (A, _LABEL_ARM, _TABLE_LOOP + _LABEL_ARM)]),
+    ('p-parse-early-returns', _WIRING_PROPS, [(A, "    # u-type instructions\n    elif head in U_TYPE_INSTRUCTIONS:", "    # u-type instructions\n    if head in U_TYPE_INSTRUCTIONS:")]),
+    ('p-pack-tuple-isinstance', None, [(A, _ISA_OLD, "if isinstance(item, (ATypeInstruction, ALTypeInstruction)):")]),
+    ('p-pack-ifexp', ['C01', 'C02'], [(A, _FMT_OLD, "        fmt = '<H' if isinstance(item, CompressedInstruction) else '<I'\n")]),
+    ('p-pack-size-table', ['C01', 'C02'], [(A, _FMT_OLD, "        fmt = {2: '<H', 4: '<I'}[item.size()]\n")]),
+    ('p-pack-slices', None, [(A, _AQRL_OLD, "                ops = item.args()\n                code = encode_func(*ops[:-2], aq=ops[-2], rl=ops[-1])")]),
+    ('p-pack-closure', ['C01', 'C02'], [(A, _RESOLVE_OLD, _RESOLVE_CLOSURE)]),
+]
+
+BREAKING += [
+    ('c01-parse-slice-off', ['C01'], [(A, _U_ARM_OLD, "        name = tokens[0].lower()\n        return UTypeInstruction(line, name, tokens[1], parse_immediate(tokens[1:], line))")]),
+    ('c01-parse-helper-raw', ['C01'], [(A, "# helper for parsing immediates since they occur in multiple places\n", _REFERENCE_HELPER.replace("    return parse_immediate(imm, line)", "    return imm[-1]") + "# helper for parsing immediates since they occur in multiple places\n"),
+                                       (A, _B_ARM_OLD, "        name, rs1, rs2, reference = tokens\n        return BTypeInstruction(line, head, rs1, rs2, parse_reference(reference, line))")]),
+    ('c01-parse-factory-rotated', ['C01'], [(A, _PARSE_ITEM_DEF, _FACTORY.replace("*tokens[1:]", "*tokens[2:], tokens[1]") + "parse_r_type = plain_args_parser(RTypeInstruction, 3, 'r-type instructions require exactly 3 args')\n\n\n" + _PARSE_ITEM_DEF),
+                                            (A, _R_ARM_OLD, "        return parse_r_type(line, head, tokens)")]),
+    ('c02-parse-table-wrong-class', ['C02'], [(A, _PARSE_ITEM_DEF, _FACTORY + _TABLE_DEF.replace("plain_args_parser(CATypeInstruction, 2,", "plain_args_parser(RTypeInstruction, 2,") + _PARSE_ITEM_DEF),
+                                              (A, _CR_ARM_OLD, ""), (A, _CA_ARM_OLD, ""),
+                                              (A, _LABEL_ARM, _TABLE_LOOP + _LABEL_ARM)]),
+    ('c01-pack-kw-for-rtype', ['C01'], [(A, _ISA_OLD, "if isinstance(item, (ATypeInstruction, ALTypeInstruction, RTypeInstruction)):")]),
+    ('c02-pack-one-compressed-class', ['C02'], [(A, _FMT_OLD, "        fmt = '<H' if isinstance(item, CRTypeInstruction) else '<I'\n")]),
+    ('c01-pack-rotated-args', ['C01'], [(A, "                args = item.args()\n                code = encode_func(*args)", "                args = item.args()\n                code = encode_func(*(args[1:] + args[:1]))")]),
+    ('c01-pack-closure-kw-swap', ['C01'], [(A, _RESOLVE_OLD, _RESOLVE_CLOSURE.replace("*args, aq, rl = item.args()", "*args, rl, aq = item.args()"))]),
+    ('c02-pack-closure-fmt', ['C02'], [(A, _RESOLVE_OLD, _RESOLVE_CLOSURE.replace("fmt = '<H' if isinstance(item, CompressedInstruction) else '<I'", "fmt = '<I' if isinstance(item, CompressedInstruction) else '<H'"))]),
+]
+
+_UTYPE_INIT = "class UTypeInstruction(Instruction):\n\n    def __init__(self, line, name, rd, imm):\n        super().__init__(line)\n        self.name = name\n        self.rd = rd\n        self.imm = imm"
+_UTYPE_INIT_SWAPPED = "class UTypeInstruction(Instruction):\n\n    def __init__(self, line, name, rd, imm):\n        super().__init__(line)\n        self.name = name\n        self.imm = imm\n        self.rd = rd"
+PRESERVING += [
+    # a keyword rebuild does not depend on the attribute order (other checks have their own, positional, reading of the rebuild)
+    ('p-rebuild-keyword', ['C01'], [(A, "new_item = item.__class__(*d.values())", "new_item = item.__class__(**d)", 'all'), (A, _UTYPE_INIT, _UTYPE_INIT_SWAPPED)]),
+]
+BREAKING += [
+    ('c01-rebuild-type-order', ['C01'], [(A, "new_item = item.__class__(*d.values())", "new_item = type(item)(*d.values())", 'all'), (A, _UTYPE_INIT, _UTYPE_INIT_SWAPPED)]),
+]
+
+_PACK_STMTS = "        code = struct.pack(fmt, code)\n        blob = Blob(item.line, code)\n        new_items.append(blob)\n\n        log_conversion('resolve_instructions', item, blob)"
+_SIZE_SEL = "        size = 2 if isinstance(item, CompressedInstruction) else 4\n"
+_RESOLVE_DEF = "def resolve_instructions(items):"
+_ENC_ARMS_OLD = "            " + _ISA_OLD + "\n" + _AQRL_OLD + "\n            else:\n                args = item.args()\n                code = encode_func(*args)"
+PRESERVING += [
+    ('p-pack-to-bytes', ['C01', 'C02'], [(A, _FMT_OLD, _SIZE_SEL), (A, _PACK_STMTS, _PACK_STMTS.replace("struct.pack(fmt, code)", "code.to_bytes(size, 'little')"))]),
+    ('p-pack-struct-const', ['C01', 'C02'], [(A, _RESOLVE_DEF, "WORD = struct.Struct('<I')\nHALF = struct.Struct('<H')\n\n\n" + _RESOLVE_DEF),
+                                             (A, _FMT_OLD, "        packer = HALF if isinstance(item, CompressedInstruction) else WORD\n"),
+                                             (A, _PACK_STMTS, _PACK_STMTS.replace("struct.pack(fmt, code)", "packer.pack(code)"))]),
+    ('p-pack-kwargs-dict', ['C01', 'C02'], [(A, _ENC_ARMS_OLD, "            args = item.args()\n            extra = {}\n            " + _ISA_OLD + "\n                extra = {'aq': args[-2], 'rl': args[-1]}\n                args = args[:-2]\n            code = encode_func(*args, **extra)")]),
+    ('p-pack-format-helper', ['C01', 'C02'], [(A, _RESOLVE_DEF, "def word_format(item):\n    if isinstance(item, CompressedInstruction):\n        return '<H'\n    return '<I'\n\n\n" + _RESOLVE_DEF),
+                                              (A, _FMT_OLD, "        fmt = word_format(item)\n")]),
+]
+BREAKING += [
+    ('c01-pack-to-bytes-big', ['C01'], [(A, _FMT_OLD, _SIZE_SEL), (A, _PACK_STMTS, _PACK_STMTS.replace("struct.pack(fmt, code)", "code.to_bytes(size, 'big')"))]),
+    ('c02-pack-struct-const-swapped', ['C02'], [(A, _RESOLVE_DEF, "WORD = struct.Struct('<I')\nHALF = struct.Struct('<H')\n\n\n" + _RESOLVE_DEF),
+                                                (A, _FMT_OLD, "        packer = WORD if isinstance(item, CompressedInstruction) else HALF\n"),
+                                                (A, _PACK_STMTS, _PACK_STMTS.replace("struct.pack(fmt, code)", "packer.pack(code)"))]),
+    ('c01-pack-kwargs-dict-swapped', ['C01'], [(A, _ENC_ARMS_OLD, "            args = item.args()\n            extra = {}\n            " + _ISA_OLD + "\n                extra = {'aq': args[-1], 'rl': args[-2]}\n                args = args[:-2]\n            code = encode_func(*args, **extra)")]),
+]
+
+_IMM_HELPER_ANCHOR = "# helper for parsing immediates since they occur in multiple places\n"
+_HILO_OLD = ("    elif head == '%hi':\n        if imm[1] == '(':\n            _, _, *imm, _ = imm\n        else:\n            _, *imm = imm\n        return Hi(parse_immediate(imm, line))\n"
+             "    elif head == '%lo':\n        if imm[1] == '(':\n            _, _, *imm, _ = imm\n        else:\n            _, *imm = imm\n        return Lo(parse_immediate(imm, line))\n")
+_HILO_DICT = "    elif head in RELOCATIONS:\n        inner = imm[2:-1] if imm[1] == '(' else imm[1:]\n        return RELOCATIONS[head](parse_immediate(inner, line))\n"
+PRESERVING += [
+    ('p-imm-wrapper-dict', None, [(A, _IMM_HELPER_ANCHOR, "RELOCATIONS = {'%hi': Hi, '%lo': Lo}\n\n\n" + _IMM_HELPER_ANCHOR), (A, _HILO_OLD, _HILO_DICT)]),
+    ('p-imm-strip-helper', None, [(A, _IMM_HELPER_ANCHOR, "def strip_modifier(imm):\n    if imm[1] == '(':\n        return imm[2:-1]\n    return imm[1:]\n\n\n" + _IMM_HELPER_ANCHOR),
+                                  (A, _HILO_OLD, "    elif head == '%hi':\n        return Hi(parse_immediate(strip_modifier(imm), line))\n    elif head == '%lo':\n        return Lo(parse_immediate(strip_modifier(imm), line))\n")]),
+    ('p-parse-dict-dispatch', None, [(A, _PARSE_ITEM_DEF, "def parse_u_type(line, name, tokens):\n    return UTypeInstruction(line, name, tokens[1], parse_immediate(tokens[2:], line))\n\n\nUPPER_PARSERS = {'lui': parse_u_type, 'auipc': parse_u_type}\n\n\n" + _PARSE_ITEM_DEF),
+                                     (A, "    # u-type instructions\n    elif head in U_TYPE_INSTRUCTIONS:\n" + _U_ARM_OLD + "\n", ""),
+                                     (A, _LABEL_ARM, "    parser = UPPER_PARSERS.get(head)\n    if parser is not None:\n        return parser(line, head, tokens)\n\n" + _LABEL_ARM)]),
+]
+BREAKING += [
+    ('c07-imm-wrapper-dict-swapped', ['C07'], [(A, _IMM_HELPER_ANCHOR, "RELOCATIONS = {'%hi': Lo, '%lo': Hi}\n\n\n" + _IMM_HELPER_ANCHOR), (A, _HILO_OLD, _HILO_DICT)]),
+    ('c01-parse-dict-dispatch-missing', ['C01'], [(A, _PARSE_ITEM_DEF, "def parse_u_type(line, name, tokens):\n    return UTypeInstruction(line, name, tokens[1], parse_immediate(tokens[2:], line))\n\n\nUPPER_PARSERS = {'lui': parse_u_type}\n\n\n" + _PARSE_ITEM_DEF),
+                                                  (A, "    # u-type instructions\n    elif head in U_TYPE_INSTRUCTIONS:\n" + _U_ARM_OLD + "\n", ""),
+                                                  (A, _LABEL_ARM, "    parser = UPPER_PARSERS.get(head)\n    if parser is not None:\n        return parser(line, head, tokens)\n\n" + _LABEL_ARM)]),
+]
+
+BREAKING += [
+    # a constructor that does not receive all of its operands (every such line dies with a TypeError)
+    ('c01-parse-missing-operand', ['C01'], [(A, "        return RTypeInstruction(line, name, rd, rs1, rs2)", "        return RTypeInstruction(line, name, rd, rs1)")]),
+    ('c01-parse-factory-count', ['C01'], [(A, _PARSE_ITEM_DEF, _FACTORY + "parse_r_type = plain_args_parser(RTypeInstruction, 2, 'r-type instructions require exactly 3 args')\n\n\n" + _PARSE_ITEM_DEF),
+                                          (A, _R_ARM_OLD, "        return parse_r_type(line, head, tokens)")]),
+]
+
+_CLS_FMT_EDITS = [(A, "class Instruction(Item):\n", "class Instruction(Item):\n\n    WORD_FORMAT = '<I'\n"), (A, _FMT_OLD, "        fmt = item.WORD_FORMAT\n")]
+PRESERVING += [
+    ('p-pack-class-attr', ['C01', 'C02'], _CLS_FMT_EDITS + [(A, "class CompressedInstruction(Instruction):\n", "class CompressedInstruction(Instruction):\n\n    WORD_FORMAT = '<H'\n")]),
+]
+BREAKING += [
+    ('c02-pack-class-attr-one-class', ['C02'], _CLS_FMT_EDITS + [(A, "class CRTypeInstruction(CompressedInstruction):\n", "class CRTypeInstruction(CompressedInstruction):\n\n    WORD_FORMAT = '<H'\n")]),
+]
+
+UNDECIDED += [
+    # the item class is looked up reflectively: which class a `lui` line becomes is not understood -> no verdict, no finding
+    ('u-parse-reflective-class', ['C01'], [(A, "        return UTypeInstruction(line, name, rd, imm)", "        return globals()['UTypeInstruction'](line, name, rd, imm)")]),
+    # the packed value is derived from, not equal to, the encoder's result: value ranges are outside the pack rule
+    ('u-pack-masked-word', ['C01'], [(A, "        code = struct.pack(fmt, code)\n        blob = Blob(item.line, code)", "        code = struct.pack(fmt, code & 0xffffffff)\n        blob = Blob(item.line, code)")]),
+]
